@@ -4,6 +4,9 @@ import (
 	"errors"
 	"math/rand"
 	"strings"
+	"sync"
+	"sync/atomic"
+	"time"
 
 	"github.com/acquirecloud/golibs/container/lru"
 )
@@ -25,7 +28,14 @@ func driveLruRetention(opt *Options) error {
 	caps := []int{1, 2, 3, 8, 64}
 	for ci, cp := range caps {
 		failNext := false
+		var burst atomic.Value // chan struct{}: while set, creations overlap (they wait for the release)
+		var arrived int32
 		create := func(k string) (int, error) {
+			if ch, ok := burst.Load().(chan struct{}); ok && ch != nil {
+				atomic.AddInt32(&arrived, 1)
+				<-ch
+				return len(k), nil
+			}
 			if failNext {
 				return 0, errors.New("create failed")
 			}
@@ -76,7 +86,30 @@ func driveLruRetention(opt *Options) error {
 				clear()
 				op = "Clear"
 			}
-			if i%sampleEvery == 0 || op == "Clear" && rnd.Intn(4) == 0 || i == opt.N-1 {
+			if i%(opt.N/8+1) == opt.N/16 {
+				// a burst of concurrent misses on distinct keys whose creations overlap: the cache must
+				// still hold at most its capacity afterwards
+				const K = 12
+				ch := make(chan struct{})
+				atomic.StoreInt32(&arrived, 0)
+				burst.Store(ch)
+				var wg sync.WaitGroup
+				for g := 0; g < K; g++ {
+					wg.Add(1)
+					go func(g int) {
+						defer wg.Done()
+						get("burst-" + string(rune('a'+g)) + string(rune('a'+i%26)))
+					}(g)
+				}
+				for w := 0; w < 200 && atomic.LoadInt32(&arrived) < K; w++ {
+					time.Sleep(100 * time.Microsecond)
+				}
+				burst.Store((chan struct{})(nil))
+				close(ch)
+				wg.Wait()
+				op = "Burst"
+			}
+			if i%sampleEvery == 0 || op == "Burst" || op == "Clear" && rnd.Intn(4) == 0 || i == opt.N-1 {
 				nodes, del, refSum, length, inflight := stats()
 				tw.Emit(map[string]any{"op": op, "cap": cp, "call": i, "nodes": nodes, "deleted": del,
 					"refsum": refSum, "len": length, "inflight": inflight})
